@@ -97,23 +97,24 @@ func RunControl(repo, prop string, c Control) ControlResult {
 		res.Outcome = "skipped(anchor)"
 		return res
 	}
-	p, err := core.Load(core.LoadOpts{Dir: repo, Overlay: ov})
-	if err != nil {
-		res.Outcome = "skipped(no-compile)"
-		res.Note = err.Error()
-		return res
-	}
-	pf := Registry[prop]
-	var rep *core.Report
-	func() {
-		defer func() {
-			if e := recover(); e != nil {
-				rep = core.NewReport(prop)
-				rep.Undecided(prop+".panic", "analyser", "-", fmt.Sprint(e))
-			}
+	rep := core.NewReport(prop)
+	for _, arch := range append([]string{""}, ExtraArchs[prop]...) {
+		p, err := core.Load(core.LoadOpts{Dir: repo, Overlay: ov, GOARCH: arch})
+		if err != nil {
+			res.Outcome = "skipped(no-compile)"
+			res.Note = err.Error()
+			return res
+		}
+		pf := Registry[prop]
+		func() {
+			defer func() {
+				if e := recover(); e != nil {
+					rep.Undecided(prop+".panic", "analyser", "-", fmt.Sprint(e))
+				}
+			}()
+			rep.Merge(pf(NewRun(p, "quick")))
 		}()
-		rep = pf(NewRun(p, "quick"))
-	}()
+	}
 	seen := map[string]bool{}
 	for _, o := range rep.Obs {
 		if o.Status != core.Pass && !seen[o.Rule] {
